@@ -213,6 +213,24 @@ def run_data(case):
         "output-name": (pt.make_dict_of_named_arrays({"a": x + 1}), pt.make_dict_of_named_arrays({"b": x + 1})),
         "einsum-spec": (pt.einsum("ij,ij->ij", x, x), pt.einsum("ij,ij->i", x, x)),
     }
+    # structurally equal graphs (==) written with numpy integers / floats where the other uses Python numbers
+    equal_pairs = {
+        "roll-numpy-int64-arguments": (pt.roll(x, np.int64(1), np.int64(0)), pt.roll(x, 1, 0)),
+        "roll-numpy-int32-shift": (pt.roll(x, np.int32(1), 0), pt.roll(x, 1, 0)),
+        "reshape-numpy-int-shape": (pt.reshape(x, (np.int64(4), np.int64(3))), pt.reshape(x, (4, 3))),
+        "placeholder-numpy-int-shape": (pt.make_placeholder("y", (np.int64(3),), np.float64), pt.make_placeholder("y", (3,), np.float64)),
+        "transpose-numpy-int-axes": (pt.transpose(x, (np.int64(1), np.int64(0))), pt.transpose(x, (1, 0))),
+        "numpy-float64-scalar-operand": (x + np.float64(1.5), x + 1.5),
+        "index-numpy-int": (x[np.int64(1)], x[1]),
+    }
+    for name, (a, b) in equal_pairs.items():
+        n += 1
+        try:
+            if a == b and key(a) != key(b):
+                viol.append({"sig": {"kind": "equal-graphs-different-keys", "pair": name},
+                             "msg": f"pair {name}: the two graphs compare equal but have different persistent keys"})
+        except Exception as e:  # noqa: BLE001
+            viol.append({"sig": {"kind": "exception", "pair": name, "error": type(e).__name__}, "msg": f"pair {name}: {e}"})
     for name, (a, b) in pairs.items():
         n += 1
         if key(a) == key(b):
